@@ -130,6 +130,7 @@ func (p *PipelineWrap) UpdateStatus(ctx context.Context, id string, st pipeline.
 	if h := p.w.Hooks.OnStatus; h != nil {
 		h(id, st, false)
 	}
+	p.w.Log.Add(Event{Kind: EvStatusBegin, Comp: id, Src: -1, Seq: -1, Info: st.String()})
 	err := p.Service.UpdateStatus(ctx, id, st, errMsg)
 	info := st.String()
 	if err != nil {
